@@ -6,7 +6,6 @@ import (
 	"fmt"
 
 	lcs "github.com/yudai/golcs"
-	"golang.org/x/exp/slices"
 )
 
 const (
@@ -249,8 +248,10 @@ func (d Diff) RenderPatch() (string, error) {
 				Value: e,
 			})
 		}
-		slices.Reverse(element.Add)
-		for _, e := range element.Add {
+		// Adds at one index are emitted in reverse order. Iterate
+		// backwards rather than reversing the caller's slice in place.
+		for i := len(element.Add) - 1; i >= 0; i-- {
+			e := element.Add[i]
 			if isVoid(element.Add[0]) {
 				continue
 			}
@@ -273,17 +274,24 @@ func (d Diff) RenderMerge() (string, error) {
 		// A noop JSON Merge Patch should be an empty object
 		return "{}", nil
 	}
-	for _, e := range d {
+	// Work on a copy: the caller's diff must not be modified.
+	nulled := make(Diff, len(d))
+	for j, e := range d {
 		if !e.Metadata.Merge {
 			return "", fmt.Errorf("cannot render non-merge element as merge")
 		}
+		add := make([]JsonNode, len(e.Add))
 		for i := range e.Add {
 			if isVoid(e.Add[i]) {
-				e.Add[i] = jsonNull{}
+				add[i] = jsonNull{}
+			} else {
+				add[i] = e.Add[i]
 			}
 		}
+		e.Add = add
+		nulled[j] = e
 	}
-	mergePatch, err := voidNode{}.Patch(d)
+	mergePatch, err := voidNode{}.Patch(nulled)
 	if err != nil {
 		return "", err
 	}
